@@ -19,6 +19,9 @@ type Oblig struct {
 	PC   *Term
 	Kind string // bounds, nil, divzero, pre, ensures, invariant, ...
 	Fn   string
+	// optional adaptive case split: if the goal is not decided whole, it is decided per value of SplitT
+	SplitT           *Term
+	SplitLo, SplitHi int
 }
 
 type Exec struct {
@@ -313,6 +316,9 @@ func (x *Exec) refOf(v Value) *Term {
 	case RefV:
 		return s.T
 	case IfaceV:
+		if s.Unk != nil {
+			return s.Unk
+		}
 		if s.Dyn == nil {
 			return Const(32, 0)
 		}
@@ -410,15 +416,67 @@ func (x *Exec) resolveRef(t *Term, typ types.Type) Value {
 			return iv
 		}
 	}
-	// guarded cases from an ite tree of constants
+	// guarded cases from an ite tree of constants: leaves are collected with their path conditions
 	if t.Op == "ite" {
-		a := x.resolveRef(t.Args[1], typ)
-		b := x.resolveRef(t.Args[2], typ)
-		_, aref := a.(RefV)
-		_, bref := b.(RefV)
-		if !aref && !bref {
-			if _, isF := a.(FuncV); !isF {
-				return mergeIface(t.Args[0], a, b)
+		type leaf struct {
+			g *Term
+			t *Term
+		}
+		var leaves []leaf
+		budget := 20000
+		var walk func(t *Term, pc []*Term) bool
+		walk = func(t *Term, pc []*Term) bool {
+			if budget <= 0 {
+				return false
+			}
+			if t.Op == "ite" {
+				budget--
+				c := t.Args[0]
+				return walk(t.Args[1], append(pc[:len(pc):len(pc)], c)) && walk(t.Args[2], append(pc[:len(pc):len(pc)], Not(c)))
+			}
+			g := And(pc...)
+			if !g.IsFalse() {
+				leaves = append(leaves, leaf{g, t})
+			}
+			return true
+		}
+		if walk(t, nil) {
+			var cases []IfaceCase
+			isFunc := false
+			for _, lf := range leaves {
+				v := x.resolveRef(lf.t, typ)
+				var iv IfaceV
+				switch vv := v.(type) {
+				case IfaceV:
+					iv = vv
+				case RefV:
+					iv = IfaceV{Unk: vv.T}
+				default:
+					isFunc = true
+				}
+				if isFunc {
+					break
+				}
+				merged := false
+				for k := range cases {
+					if sameIface(cases[k].V, iv) {
+						cases[k].C = Or(cases[k].C, lf.g)
+						merged = true
+						break
+					}
+				}
+				if !merged {
+					cases = append(cases, IfaceCase{lf.g, iv})
+				}
+			}
+			if !isFunc && len(cases) > 0 {
+				if len(cases) == 1 {
+					if cases[0].V.Unk != nil {
+						return RefV{cases[0].V.Unk}
+					}
+					return cases[0].V
+				}
+				return IfaceM{cases}
 			}
 		}
 	}
@@ -435,6 +493,9 @@ func ifaceCases(v Value) []IfaceCase {
 	panic(mergeFail{fmt.Sprintf("ifaceCases: %T", v)})
 }
 func sameIface(a, b IfaceV) bool {
+	if a.Unk != nil || b.Unk != nil {
+		return a.Unk == b.Unk
+	}
 	if a.Dyn == nil || b.Dyn == nil {
 		return a.Dyn == nil && b.Dyn == nil
 	}
@@ -473,7 +534,9 @@ func mergeIface(c *Term, a, b Value) Value {
 func ifaceIsNil(v Value) *Term {
 	var cs []*Term
 	for _, k := range ifaceCases(v) {
-		if k.V.Dyn == nil {
+		if k.V.Unk != nil {
+			cs = append(cs, And(k.C, Eq(k.V.Unk, Const(32, 0))))
+		} else if k.V.Dyn == nil {
 			cs = append(cs, k.C)
 		}
 	}
@@ -880,7 +943,7 @@ func (x *Exec) mergeStates(entry *State, outs []Outcome, val func(Outcome) Value
 	n := len(entry.Cond)
 	suffix := func(o Outcome) *Term { return And(o.St.Cond[n:]...) }
 	acc := outs[len(outs)-1]
-	m := &State{Heap: map[int]Value{}, Cond: append([]*Term(nil), entry.Cond...), Loops: acc.St.Loops}
+	m := &State{Heap: map[int]Value{}, Cond: append([]*Term(nil), entry.Cond...), Loops: acc.St.Loops, Facts: entry.Facts}
 	asSeen := map[int64]bool{}
 	for _, o := range outs {
 		for _, a := range o.St.Assume {
@@ -1181,6 +1244,12 @@ func (x *Exec) branch(st *State, fr *Frame, b *ssa.BasicBlock, c *Term, stop *ss
 		inner = stop
 	}
 	var outs []Outcome
+	if st.Facts[c.id] {
+		return x.runRegion(st, fr, b.Succs[0], b, stop)
+	}
+	if st.Facts[Not(c).id] {
+		return x.runRegion(st, fr, b.Succs[1], b, stop)
+	}
 	pcT := And(append(append([]*Term(nil), st.Cond...), c)...)
 	pcF := And(append(append([]*Term(nil), st.Cond...), Not(c))...)
 	if !pcT.IsFalse() {
@@ -1571,6 +1640,9 @@ func (x *Exec) doCall(st *State, fr *Frame, in *ssa.Call) []Outcome {
 func (x *Exec) invoke(st *State, fr *Frame, recv Value, m *types.Func, args []Value, site string) []Outcome {
 	switch rv := recv.(type) {
 	case IfaceV:
+		if rv.Unk != nil {
+			return x.invoke(st, fr, RefV{rv.Unk}, m, args, site)
+		}
 		if rv.Dyn == nil {
 			x.oblige(st, fr, "nil", site, False())
 			return []Outcome{{Kind: oPanic, St: st, PanicS: "invoke on nil interface at " + site}}
@@ -1945,6 +2017,9 @@ func (x *Exec) equal(a, b Value) *Term {
 			}
 			return Eq(x.refOf(av), x.refOf(bv))
 		case IfaceV:
+			if av.Unk != nil || bv.Unk != nil {
+				return Eq(x.refOf(av), x.refOf(bv))
+			}
 			if av.Dyn == nil || bv.Dyn == nil {
 				return BoolC(av.Dyn == nil && bv.Dyn == nil)
 			}
@@ -2047,7 +2122,7 @@ func (x *Exec) skolem(t *Term) *Term {
 	switch t.Op {
 	case "forall":
 		k := x.freshVar("sk_"+t.Args[0].Name, t.Args[0].S)
-		return x.skolem(Subst(t.Args[1], map[int64]*Term{t.Args[0].id: k}))
+		return x.skolem(SubstBound(t.Args[1], t.Args[0], k))
 	case "and":
 		as := make([]*Term, len(t.Args))
 		ch := false
